@@ -462,6 +462,56 @@ def mps_sample(n, d, D, shot_options, exhaustive, canonical=False, lean=False):
     return fn
 
 
+def mps_sample_moved_centre(n):
+    """MPS whose declared orthogonality centre is the LAST site and whose bond left of it has
+    dimension 2: the sampler's weights must still be the Born marginals / conditionals, i.e.
+    sample() has to bring the state to centre 0 first (genuine QR: known-factorisation stub)."""
+    from harness.c13 import install_known_qr, rot
+
+    def fn(env):
+        T = env.torch
+        mps_mod = env.mod("emu_mps.mps")
+
+        def angle(name):
+            th = T.tensor(env.real(name, lo=-3.2, hi=3.2), dtype=T.float64)
+            return T.cos(th), T.sin(th)
+
+        ca, sa = angle("alpha")
+        cg, sg = angle("gamma")
+        r00 = env.real("r00", lo=0.125, hi=4.0)
+        r11 = env.real("r11", lo=0.125, hi=4.0)
+        r01 = env.cplx("r01")
+        R0 = T.tensor([[r00, r01], [0.0, r11]], dtype=T.complex128)
+        Q0 = rot(T, cg, sg)
+        U = rot(T, ca, sa)
+        factors = []
+        if n == 3:
+            cb, sb = angle("beta")
+            factors.append(T.stack([cb, sb]).to(T.complex128).reshape(1, 2, 1))
+        factors.append(U.reshape(1, 2, 2))  # left-orthonormal
+        factors.append((Q0 @ R0).mT.contiguous().reshape(2, 2, 1))  # the centre
+        kept = [f.clone() for f in factors]
+        psi = refs.contract_mps(T, kept).reshape(*([2] * n))
+        known = [(Q0, R0)]
+        install_known_qr(env, known)
+        centre = n - 1 if not env.mutant("declared_centre_0") else 0
+        with Instr(env, "emu_mps.mps", picker(env, True, 2, n)) as ins:
+            st = mps_mod.MPS(list(factors), orthogonality_center=centre, num_gpus_to_use=0, eigenstates=EIG[2])
+            res = st.sample(num_shots=1, p_false_pos=0.0, p_false_neg=0.0)
+            env.check(len(ins.mn_calls) == n, "one sampler call per site")
+            env.check_eq(refs.contract_mps(T, st.factors).reshape(*([2] * n)), psi, "re-canonicalising for sampling does not change the state")
+            levels = []
+            for q, (w, ns, _, outs) in enumerate(ins.mn_calls):
+                sub = psi[tuple(levels)] if levels else psi
+                sub = sub.reshape(2, -1)
+                born = (sub.real * sub.real + sub.imag * sub.imag).sum(dim=1)
+                env.check_eq(w[0], born, f"weights of site {q} = Born marginal of |psi|^2 given the outcomes so far (centre declared at site {n - 1})")
+                levels.append(outs[0][0])
+            env.check(+Counter(res) == Counter(["".join("1" if o == 1 else "0" for o in levels)]), "the sampled bitstring lists the outcomes, atom 0 first")
+
+    return fn
+
+
 META = {
     "explanation": (
         "readout_with_error, apply_measurement_errors, index_to_bitstring and the sample methods of StateVector, "
@@ -479,8 +529,10 @@ META = {
     ),
     "outside": [
         "that torch.multinomial / random.random draw from the distributions they are given (the statistical claim)",
-        "MPS.orthogonalize for an orthogonality centre other than 0 (QR): the conditional weights are Born marginals "
-        "only for right-canonical factors, which is decided here for MPS given in that form (N=2 D<=2, N=3 D=1)",
+        "MPS.orthogonalize for an orthogonality centre other than 0 is decided for the declared centre at the last site "
+        "with one chi=2 bond next to it (N=2, 3; known-factorisation QR stub: every valid LAPACK answer Q0 D, D* R0); other "
+        "centre positions / larger bonds are outside; for centre 0 the conditional weights are Born marginals "
+        "for right-canonical factors, which is decided for MPS given in that form (N=2 D<=2, N=3 D=1)",
         "N > 3 atoms, more than 70 shots, bond dimension > 2; outcome sequences other than the enumerated ones "
         "(all sequences for <= 2 shots; arithmetic patterns for 33..70 shots)",
         "error rates outside [0,1]; floating-point rounding",
@@ -488,7 +540,7 @@ META = {
     "assumptions": [
         "density matrices are Hermitian with non-negative diagonal (DensityMatrix.sample uses abs(diagonal))",
         "random.random() returns a value in [0,1)",
-        "MPS constructed with orthogonality_center=0",
+        "MPS constructed with orthogonality_center=0 (all cases but mps_sample_centre_last_*, which declare the last site)",
     ],
     "notes": [
         "MPS.sample with dim=3: `p_false_neg > 0 or p_false_pos > 0 and self.dim == 2` parses as "
@@ -576,6 +628,18 @@ def cases(tier):
                 bounds={"n_atoms": n, "dim": d, "bond_dim": D, "num_shots": 1, "form": "right-canonical (angle-parametrised)"},
                 canaries=["weights_shifted"],
                 weight=30,
+            )
+        )
+    for n in ([2] if quick else [2, 3]):
+        out.append(
+            Case(
+                f"mps_sample_centre_last_n{n}",
+                mps_sample_moved_centre(n),
+                covers=COVERS_MPS,
+                bounds={"n_atoms": n, "dim": 2, "bond_dim": 2, "num_shots": 1, "declared orthogonality centre": n - 1, "outcomes": "all sequences"},
+                canaries=["declared_centre_0"],
+                weight=60,
+                timeout_ms=60000,
             )
         )
     for c in out:
